@@ -90,6 +90,14 @@ Theorem c03_updater_l s u x : reach s -> alookup u (upds s) = Some x ->
   u_old x = cache_get s (u_cid x) /\ fold_upd (u_old x) (u_acts x) = Ok (u_roots x).
 Proof. intros H L. destruct (inv_upd meta s (reach_inv s H) u x L) as (_ & H2 & H3 & _). auto. Qed.
 
+(* no disciplined operation panics in a reachable state: the contract-sector counter equals
+   the number of root rows, so it never underflows, and no replay index runs out of range *)
+Theorem c03_no_panic_l s o : reach s -> disc meta s o -> is_panic_obs (snd (step s o)) = false.
+Proof. intros H. apply (disciplined_never_panics meta). now apply reach_inv. Qed.
+
+Theorem c03_counter_l s : reach s -> nsec (dbs s) = total (t1 (dbs s)) + total (t2 (dbs s)).
+Proof. intros H. exact (inv_nsec meta s (reach_inv s H)). Qed.
+
 (** * C13 *)
 
 Theorem c13_renew1_l s old new crev cfsize cmroot nrev nfsize nmroot nws mold fault s' :
